@@ -14,6 +14,8 @@ from . import simrules
 
 def run(ctx):
     repo = ctx.repo
+    simrules.measured_qubits_rule(ctx, 'C09.f')
+    ctx.decided.append('C09.f simulating with a noise model: noise that follows a deferred terminal measurement is recognised per qubit and never reaches the sampled state')
     ctx.decided += [
         'C09.a buffer-commit discipline of _BufferedDensityMatrix and _BufferedStateVector (incl. create() copying an aliased input)',
         'C09.b trajectory sampling: buffer divided by sqrt(weight) before commit; mixture index drawn with the mixture\'s own probabilities and returned',
